@@ -52,12 +52,41 @@ CHECK_DEADLOCK FALSE
     return r, path
 
 
+_replayed = set()
+
+
 def replay_reader(acc, path, mode, extra=(), enc=False, leg=None):
     if path is None:
         return
     summ, viol, _ = harness(["reader-replay", "--file", path, "--mode", mode, "--prop", acc.pid, "--out-dir", REPLAY_DIR,
                              "--seed", SEED, *extra], enc=enc)
-    acc.add_harness(summ, viol, leg or f"B:replay {mode}{' (encoding feature on)' if enc else ''}")
+    acc.add_harness(summ, viol, leg or f"B:replay {mode}{' (encoding feature on)' if enc else ''}",
+                    count_nontrivial=path not in _replayed)
+    _replayed.add(path)
+
+
+def mc_source(acc, K, mode="two", faults=True, frag="markup", name="MC_Source", timeout=1700):
+    cfg = f"""SPECIFICATION MCSpec
+CONSTANTS
+  K = {K}
+  FragMode = "{frag}"
+  CfgMode = "{mode}"
+  FaultsOn = {"TRUE" if faults else "FALSE"}
+INVARIANTS Inv_Refines Inv_Offset Inv_Buf Inv_Carry Inv_Env Inv_Fault
+CHECK_DEADLOCK FALSE
+"""
+    tiny = cfg.replace(f"K = {K}", "K = 1")
+    tiny = tiny[:tiny.index("INVARIANTS")] + "INVARIANTS Inv_Witness\nCHECK_DEADLOCK FALSE\n"
+    rc = tlc("MC_Source", tiny, name=name + "-wit", timeout=600, tags=("WITNESS",))
+    seen = set()
+    for w in rc.tagged.get("WITNESS", []):
+        seen |= set(json.loads(w))
+    needed = {"init", "text", "peek", "bangpeek", "with", "bang", "stutter", "partial"} | ({"io"} if faults else set())
+    if needed - seen:
+        raise ToolError(f"vacuous model: never reached: {needed - seen}")
+    r = tlc("MC_Source", cfg, name=name, timeout=timeout)
+    acc.add_tlc(r, f"A:MC_Source K={K} cfgs={mode} frags={frag} faults={faults} (all cuts drawn per refill)")
+    return r
 
 
 def validate_trace(acc, module, trace_path, leg, consts, timeout=1700, rerun_args=None):
@@ -146,6 +175,155 @@ def c01(acc):
     return acc.finish()
 
 
+def c02(acc):
+    """Events independent of source type and chunking."""
+    q = acc.tier == QUICK
+    acc.rule = ("(A) Source.tla: every input of <= K fragments x every cut sequence (chosen per refill) x stutters; (B) the behaviours of MC_Reader executed on "
+                "BufRead and tokio AsyncBufRead sources under all 2^(n-1) cuts for inputs up to 10 bytes (sizes 1,2,3,7 + random beyond) and three Pending patterns; "
+                "(C) recorded traces over all source kinds with random cuts; non-trivial = distinct (input,config) with a markup event")
+    acc.trusted = READER_TRUST + ["BOM / encoding sniff is outside Source.tla (first piece >= 4 bytes when the input starts like a BOM, as the property allows)"]
+    mc_source(acc, 2 if q else 3, faults=False, name="MC_Source-nofault")
+    if not q:
+        mc_source(acc, 2, mode="cover", faults=False, name="MC_Source-cover")
+    _, p = mc_reader(acc, 2 if q else 3, "cover" if q else "default", ["Inv_RefMatch"], name="MC_Reader-c02")
+    replay_reader(acc, p, "chunks", extra=["--max-all-cuts", 9 if q else 12])
+    if not q:
+        replay_reader(acc, p, "chunks", extra=["--max-all-cuts", 10], enc=True)
+    trace_reader(acc, 300 if q else 3000, "doc,mut,rand,corpus,small", "plain", sources="all", max_len=500 if q else 3000)
+    return acc.finish()
+
+
+def c18(acc):
+    """I/O faults are transparent (interrupts) or reported once (errors)."""
+    q = acc.tier == QUICK
+    acc.rule = ("(A) Source.tla with one I/O error allowed at any refill and up to two Interrupted/Pending stutters; (B) for every MC_Reader behaviour and five "
+                "cut patterns, every refill index as fault point: Interrupted x1, x2 (must be invisible) and a hard error (prefix + Io in the call that met it), "
+                "sync and async; (C) recorded traces with random multi-interrupt patterns and hard errors; non-trivial = distinct (input,config) with a markup event")
+    acc.trusted = READER_TRUST
+    mc_source(acc, 2 if q else 3, faults=True, name="MC_Source-fault")
+    _, p = mc_reader(acc, 2, "default" if q else "cover", ["Inv_RefMatch"], name="MC_Reader-c18")
+    replay_reader(acc, p, "faults")
+    trace_reader(acc, 400 if q else 4000, "doc,mut,corpus,small", "faults", sources="all", max_len=300 if q else 2000)
+    return acc.finish("model_checking")
+
+
+def c03(acc):
+    """Totality, termination, Eof final, position sanity."""
+    q = acc.tier == QUICK
+    acc.rule = ("(A) MC_Reader with Inv_Total over the markup alphabet and over a byte-class alphabet (NUL, 0x80, 0xFF, letters, markup bytes); (B) each behaviour "
+                "executed on slice/str and chunked sources with every payload accessor exercised under catch_unwind; (C) random 256-value byte strings, mutated and "
+                "corpus documents over all sources with configuration flips; a panic is recorded as data and rejected. non-trivial = distinct (input,config) with a markup event")
+    acc.trusted = READER_TRUST + ["a concrete panic is found by running the code (the spec supplies result domain, shapes and invariants)"]
+    _, p = mc_reader(acc, 3 if q else 4, "cover", ["Inv_Total", "Inv_RefMatch"], frag="bytes", name="MC_Reader-bytes")
+    replay_reader(acc, p, "slice")
+    replay_reader(acc, p, "slice", enc=True)
+    _, p2 = mc_reader(acc, 2, "all", ["Inv_Total"], name="MC_Reader-c03all")
+    replay_reader(acc, p2, "chunks", extra=["--max-all-cuts", 6, "--stride", 4])
+    trace_reader(acc, 500 if q else 5000, "rand,small,mut,corpus", "flips", sources="all", max_len=300 if q else 2000)
+    trace_reader(acc, 300 if q else 3000, "rand,small,mut", "mix", sources="all", max_len=200, enc=True, seed_off=1)
+    return acc.finish()
+
+
+def c08(acc):
+    """Positions account for every byte; read-then-write reproduces the input."""
+    q = acc.tier == QUICK
+    acc.rule = ("(A) MC_Reader Inv_Tiling (span between consecutive positions = the event's markup; final position = length) for configurations without trimming/"
+                "expansion; (B) positions after every call compared, and every event written back with Writer::write_event and compared with the spec's rendering "
+                "(slice and two chunked sources); (C) corpus/generated traces under the neutral-like configurations. non-trivial = distinct input with a markup event")
+    acc.trusted = READER_TRUST
+    _, p = mc_reader(acc, 3 if q else 4, "neutral", ["Inv_Tiling", "Inv_RefMatch"], name="MC_Reader-c08")
+    replay_reader(acc, p, "slice")
+    replay_reader(acc, p, "roundtrip")
+    _, p2 = mc_reader(acc, 2 if q else 3, "all", ["Inv_Tiling"], name="MC_Reader-c08all")
+    replay_reader(acc, p2, "roundtrip")
+    trace_reader(acc, 300 if q else 3000, "doc,corpus,mut", "plain", sources="all", max_len=800 if q else 6000)
+    return acc.finish()
+
+
+def c16(acc):
+    """Reader options change the stream only in the documented way."""
+    q = acc.tier == QUICK
+    acc.rule = ("(A) MC_Reader Inv_RefMatch: machine stream under cfg = Transform(cfg, neutral grammar stream) incl. positions, for all 128 configurations (K small) "
+                "and a pairwise-covering set (K larger); (B) the same behaviours on the real reader; (C) traces with random configurations. "
+                "non-trivial = distinct (input,config) with a markup event")
+    acc.trusted = READER_TRUST
+    _, p = mc_reader(acc, 2 if q else 3, "all", ["Inv_RefMatch", "Inv_Nesting"], name="MC_Reader-c16all", timeout=3000)
+    replay_reader(acc, p, "slice")
+    _, p2 = mc_reader(acc, 3 if q else 4, "cover", ["Inv_RefMatch"], name="MC_Reader-c16cover")
+    replay_reader(acc, p2, "slice")
+    trace_reader(acc, 400 if q else 4000, "doc,mut,corpus", "plain", sources="all", max_len=500 if q else 3000)
+    return acc.finish()
+
+
+def mc_ops(acc, L, flips, skips, init, keys, invs, name, emit=True, timeout=2500):
+    cfg = f"""SPECIFICATION Spec
+CONSTANTS
+  L = {L}
+  MaxFlips = {flips}
+  MaxSkips = {skips}
+  FlipKeys = {{{', '.join('"%s"' % k for k in keys)}}}
+  InitCfgs = "{init}"
+  KnownDevs = {devs_tla()}
+  Emit = {"TRUE" if emit else "FALSE"}
+INVARIANTS {' '.join(invs + (['Inv_Emit'] if emit else []))}
+CHECK_DEADLOCK FALSE
+"""
+    # vacuity: on a tiny instance every operation must be witnessed (TLC -coverage is pathologically slow on these modules)
+    tiny = cfg.replace(f"L = {L}", "L = 1")
+    tiny = tiny[:tiny.index("INVARIANTS")] + "INVARIANTS Inv_Witness\nCHECK_DEADLOCK FALSE\n"
+    rc = tlc("MC_ReaderOps", tiny, name=name + "-wit", timeout=600, tags=("WITNESS",))
+    seen = {json.loads(w)[0] for w in rc.tagged.get("WITNESS", [])}
+    needed = {"read"} | ({"flip"} if flips else set()) | ({"skip"} if skips else set())
+    if needed - seen:
+        raise ToolError(f"vacuous model: operations never taken: {needed - seen}")
+    r = tlc("MC_ReaderOps", cfg, name=name, timeout=timeout)
+    acc.add_tlc(r, f"A:MC_ReaderOps L={L} flips<={flips} skips<={skips} init={init} keys={','.join(keys)}")
+    path = None
+    if emit:
+        path = os.path.join(work_dir("beh-" + name), "behaviours.ndjson")
+        write_ndjson(path, r.tagged.get("REPLAY", []))
+    return r, path
+
+
+def c04(acc):
+    """End tags matched against open start tags exactly as configured."""
+    q = acc.tier == QUICK
+    acc.rule = ("(A) MC_ReaderOps: tag sequences of <= L fragments over names a/ab/b (prefixes of each other), '</a >', '<a/>', look-alike end tags in comment/CDATA; "
+                "all 16 settings of check_end_names/allow_unmatched_ends/expand_empty_elements/trim_markup_names x toggles of these switches at any point of the call "
+                "history; every Read compared with a reference computed from the current configuration and the TRUE nesting; (B) every history replayed on the real "
+                "reader (slice and chunked); (C) recorded traces with random flips. non-trivial = distinct (input,config) with a markup event")
+    acc.trusted = READER_TRUST
+    invs = ["Inv_ReadRef", "Inv_Nest", "Inv_NestEmpty"]
+    keys = ["cen", "aue", "eee", "tmn"]
+    _, p = mc_ops(acc, 2 if q else 3, 2 if q else 2, 0, "four", keys, invs, "MC_Ops-c04")
+    replay_reader(acc, p, "slice")
+    replay_reader(acc, p, "chunks", extra=["--max-all-cuts", 0, "--stride", 3 if q else 1])
+    if q:
+        mc_ops(acc, 3, 1, 0, "default", keys, invs, "MC_Ops-c04b", emit=False)
+    _, p3 = mc_reader(acc, 3, "cover", ["Inv_Nesting", "Inv_RefMatch"], name="MC_Reader-c04")
+    replay_reader(acc, p3, "slice")
+    trace_reader(acc, 400 if q else 4000, "doc,mut,corpus", "flips", sources="all", max_len=400 if q else 3000)
+    return acc.finish()
+
+
+def c12(acc):
+    """Skipping consumes exactly one element and reports its inner span."""
+    q = acc.tier == QUICK
+    acc.rule = ("(A) MC_ReaderOps with Skip after any Start: documents of <= L tag-level fragments (repeated names, <a/>, '</a >', end-tag look-alikes in comment/CDATA, "
+                "truncated seeds) x trim/expand configurations (and flips in the thorough tier); result compared with a declarative tree-based reference, span "
+                "delimiters checked; (B) every history replayed with read_to_end / read_to_end_into / read_to_end_into_async / read_text and config() read back; "
+                "(C) recorded traces with random skip calls. non-trivial = distinct (input,config) with a markup event")
+    acc.trusted = READER_TRUST
+    invs = ["Inv_ReadRef", "Inv_SkipRef", "Inv_Nest"]
+    _, p = mc_ops(acc, 3, 0, 2, "trim", [], invs, "MC_Ops-c12")
+    replay_reader(acc, p, "slice")
+    replay_reader(acc, p, "chunks", extra=["--max-all-cuts", 0])
+    _, p2 = mc_ops(acc, 2 if q else 3, 1, 2 if q else 1, "four", ["tts", "tte", "eee", "cen"], invs, "MC_Ops-c12b")
+    replay_reader(acc, p2, "slice", extra=["--stride", 2 if q else 1])
+    trace_reader(acc, 400 if q else 4000, "doc,mut,corpus", "skips", sources="all", max_len=400 if q else 3000)
+    return acc.finish()
+
+
 def run_check(pid, tier):
     fn = REGISTRY.get(pid)
     if fn is None:
@@ -174,4 +352,4 @@ def replay(pid, path):
     return 1
 
 
-REGISTRY = {"C01": c01}
+REGISTRY = {"C01": c01, "C02": c02, "C03": c03, "C04": c04, "C08": c08, "C12": c12, "C16": c16, "C18": c18}
